@@ -5,12 +5,12 @@ BUILD     ?= build
 CXX       := g++
 SAN       ?= -fsanitize=address,undefined -fno-sanitize-recover=undefined
 CXXFLAGS  := -std=c++17 -O1 -g -DNDEBUG -DBLUETOE_VERIF $(SAN) -fno-omit-frame-pointer -Wall -Wno-unused-parameter
-INCLUDES  := -I$(REPO) -I$(REPO)/bluetoe/sm/include -I$(REPO)/bluetoe/utility/include \
+INCLUDES  := -Ishim -I$(REPO) -I$(REPO)/bluetoe/sm/include -I$(REPO)/bluetoe/utility/include \
              -I$(REPO)/bluetoe/link_layer/include -I$(REPO)/bluetoe/link_layer/include/bluetoe -I$(REPO)/bluetoe/link_layer \
              -I$(REPO)/bluetoe/bindings/nordic/include
 LDFLAGS   := $(SAN) -pthread
 
-HARNESSES := wl_sim nq_sim
+HARNESSES := wl_sim nq_sim ring_sim
 
 REPO_OBJS := $(BUILD)/repo/address.o $(BUILD)/repo/channel_map.o $(BUILD)/repo/delta_time.o $(BUILD)/repo/connection_details.o
 
